@@ -108,7 +108,9 @@ pub async fn run(seed: u64, sched: Rc<Sched>, keep_log: bool) -> (CaseResult, Ve
     let nval = rng.gen_range(1..=4usize);
     let first_block: u64 = if rng.gen_bool(0.5) { 0 } else { rng.gen_range(1..6) };
     let first_pre: u64 = if first_block > 0 { rng.gen_range(0..=first_block) } else { 0 };
-    let len: u64 = if rng.gen_range(0..100) < 12 { rng.gen_range(101..140) } else { rng.gen_range(4..30) };
+    // "Deep queue": more than CACHE_CAPACITY (100) blocks queued while persistence crawls.
+    let deep = rng.gen_range(0..100) < 12;
+    let len: u64 = if deep || rng.gen_range(0..100) < 6 { rng.gen_range(104..140) } else { rng.gen_range(4..30) };
     let chain = Arc::new(make_chain(&mut rng, nval, first_block, first_pre, len));
     let c = &chain.committee;
     let hub = Arc::new(Hub::new(c.clone(), kit::stream(seed, "pad"), 0, keep_log));
@@ -116,7 +118,7 @@ pub async fn run(seed: u64, sched: Rc<Sched>, keep_log: bool) -> (CaseResult, Ve
         let h = hist.clone();
         *hub.mirror.lock().unwrap() = Some(Box::new(move |l| h.note(l)));
     }
-    let persist_now = rng.gen_range(0..100) < 35;
+    let persist_now = !deep && rng.gen_range(0..100) < 35;
     let store = Arc::new(Mutex::new(NodeStore::new(validator::BlockNumber(chain.first), persist_now)));
     hist.note(format!("store: validators={nval} first_block={first_block} first_pregenesis={first_pre} len={len} persist_now={persist_now}"));
 
@@ -182,13 +184,13 @@ pub async fn run(seed: u64, sched: Rc<Sched>, keep_log: bool) -> (CaseResult, Ve
             all.push((*n, bad.0, bad.1));
         }
     }
-    let nsub = rng.gen_range(2..=6usize);
+    let nsub = if deep { 2 } else { rng.gen_range(2..=6usize) };
     let mut lists: Vec<Vec<(u64, &'static str, validator::Block)>> = vec![vec![]; nsub];
     for x in all {
         lists[rng.gen_range(0..nsub)].push(x);
     }
     for l in lists.iter_mut() {
-        match rng.gen_range(0..3) {
+        match if deep { 0 } else { rng.gen_range(0..3) } {
             0 => {}                                   // in order
             1 => l.shuffle(&mut rng),                 // out of order
             _ => {
@@ -296,7 +298,7 @@ pub async fn run(seed: u64, sched: Rc<Sched>, keep_log: bool) -> (CaseResult, Ve
                 match &r {
                     Ok(Some(b)) if Some(b) != want => hist.violation("C08", "read_wrong_block", format!("get_block({number}) returned a block which is not the genuine block {number}")),
                     Ok(None) if !pruned => hist.violation("C08", "available_block_unreadable", format!("block {number} was inside queued() = [{}, {}) but get_block returned None and it was not pruned", q.first.0, q.next().0)),
-                    Err(ctx::Error::Internal(e)) if !pruned && !read_fault => hist.violation("C08", "available_block_unreadable", format!("block {number} was inside queued() = [{}, {}) but get_block failed: {e:#}", q.first.0, q.next().0)),
+                    Err(ctx::Error::Internal(e)) if !pruned && !(read_fault && format!("{e:#}").contains("simulated read error")) => hist.violation("C08", "available_block_unreadable", format!("block {number} was inside queued() = [{}, {}) but get_block failed: {e:#}", q.first.0, q.next().0)),
                     _ => {}
                 }
             }
@@ -308,10 +310,10 @@ pub async fn run(seed: u64, sched: Rc<Sched>, keep_log: bool) -> (CaseResult, Ve
     d.tick_pct = 4;
     d.tick_sizes = vec![1_000_000, 20_000_000];
     d.max_steps = 400_000;
-    let p_persist = rng.gen_range(5..40u32);
-    let p_jump = if rng.gen_range(0..100) < 40 { rng.gen_range(1..4u32) } else { 0 };
-    let p_prune = if rng.gen_range(0..100) < 40 { rng.gen_range(1..3u32) } else { 0 };
-    let mut restarts_left = if rng.gen_range(0..100) < 50 { rng.gen_range(1..4u32) } else { 0 };
+    let p_persist = if deep { 1 } else { rng.gen_range(5..40u32) };
+    let p_jump = if !deep && rng.gen_range(0..100) < 40 { rng.gen_range(1..4u32) } else { 0 };
+    let p_prune = if !deep && rng.gen_range(0..100) < 40 { rng.gen_range(1..3u32) } else { 0 };
+    let mut restarts_left = if !deep && rng.gen_range(0..100) < 50 { rng.gen_range(1..4u32) } else { 0 };
     let mut restarting: Option<u32> = None;
     let mut arng = kit::stream(seed, "store-actions");
     let mut end = DriveEnd::Done;
@@ -430,6 +432,17 @@ pub async fn run(seed: u64, sched: Rc<Sched>, keep_log: bool) -> (CaseResult, Ve
         while s.persist_one().is_some() {}
     }
     let _ = d.drive(|| readers.iter().all(|h| h.is_finished()), |_| {}).await;
+    // With a prompt disk every queued block must reach it (a block dropped from the cache before
+    // it was persisted stalls the queueing task for good).
+    if let Some((_, mgr)) = slot.lock().unwrap().clone() {
+        let st = store.clone();
+        let m2 = mgr.clone();
+        let _ = d.drive(|| st.lock().unwrap().disk.next() >= m2.queued().next(), |_| {}).await;
+        let (qn, dn) = (mgr.queued().next().0, store.lock().unwrap().disk.next().0);
+        if dn < qn && harness_error.is_none() {
+            hist.violation("C08", "queued_block_never_persisted", format!("queued() ends at {qn} but the execution layer only ever received blocks up to {dn}, although the disk is prompt"));
+        }
+    }
     let _ = kill.send(());
     let _ = d.drive(|| mgr_done.is_finished() && old_mgrs.iter().all(|h| h.is_finished()), |_| {}).await;
     d.tick_sizes = vec![500_000_000];
@@ -453,6 +466,9 @@ pub async fn run(seed: u64, sched: Rc<Sched>, keep_log: bool) -> (CaseResult, Ve
     }
     if len > 100 {
         hist.probe("cache_capacity_crossed");
+    }
+    if deep {
+        hist.probe("deep_queue");
     }
     let states = vec![kit::mix(handed.min(40) as u64, kit::mix(restarts_left as u64, (persist_now as u64) << 1 | (first_block > 0) as u64))];
     finish(
